@@ -62,7 +62,7 @@ def _init_state(ctx, f):
 
 
 # ---------------------------------------------------------------------------
-@rule("TS1", ["C06"])
+@rule("TS1", ["C06", "C01"])
 def ts1(ctx, pid):
     """Every node visited by a mutation is scheduled for pruning (TS1); every node absorbed by a merge is
     scheduled (TS2); the pending-prune increment is guarded exactly by is_pruning and 'node is stored by hash' (PENDG);
@@ -95,6 +95,29 @@ def ts1(ctx, pid):
             ctx.bad(c, f.loc(), "a path through %s returns for a non-blank node without scheduling it for pruning: the replaced node would stay in the db" % name)
         else:
             ctx.ok(c, f.loc(), "_prune_node(node) precedes every return for a non-blank node (%d paths)" % n)
+    # ---- each visited node is scheduled exactly once: the dispatchers schedule it, the kind-specific
+    # handlers (which receive the same node) must not schedule it again; no term is scheduled twice on a path
+    dup = None
+    for name in FAMILY:
+        f = H(ctx, name)
+        init = _init_state(ctx, f)
+        for p, st in pq.states_init(ctx, f, init):
+            seen_terms = []
+            for ev in st.events:
+                if ev.k == "call" and ev.a == "ok" and isinstance(ev.node, ast.Call):
+                    tg = ctx.R.resolve_call(ev.node, f, count=False)[0]
+                    if tg.kind == "def" and tg.func is prune and ev.node.args:
+                        t = eng.ev(ev.node.args[0], f, st)
+                        if t in seen_terms:
+                            dup = dup or (f, ev.node, "the same node `%s` is scheduled for pruning twice on one path" % tstr(t)[:40])
+                        seen_terms.append(t)
+                        if t == ("p", "node") and name not in ("_set", "_delete"):
+                            dup = dup or (f, ev.node, "%s schedules its own node parameter again: _set / _delete already did, a shared node would lose two references for one removal" % name)
+    c = "scheduled-once:HexaryTrie"
+    if dup:
+        ctx.bad(c, dup[0].loc(dup[1]), dup[2])
+    else:
+        ctx.ok(c, "trie/hexary.py", "only the dispatchers _set / _delete schedule the visited node; no node term is scheduled twice on a path")
     # ---- TS2: absorbed nodes
     n_abs = 0
     for name in ("_normalize_branch_node", "_delete_kv_node"):
